@@ -63,6 +63,8 @@ class Config:
     # flip when all cores are busy
     branch_timeout_ms = 5000
     oblig_timeout_ms = 60000
+    cover_timeout_ms = None  # budget of one reachability (vacuity) check; None: oblig_timeout_ms.  An `unknown` answer leaves the
+    # point "uncovered" unless another path covers it, so a contract whose paths carry quantifiers may shorten it (sound)
     max_paths = 20000
     use_cvc5 = True
     shard = None  # (k, nshards, depth): explore only this shard of the path space (see State.choose)
@@ -477,7 +479,7 @@ class State:
         ob = self.ex.obligations.get(key)
         if ob is not None and ob.status == "covered":
             return
-        r, _ = self._check(z3.BoolVal(True), self.cfg.oblig_timeout_ms)
+        r, _ = self._check(z3.BoolVal(True), self.cfg.cover_timeout_ms or self.cfg.oblig_timeout_ms)
         if ob is None:
             ob = Obligation(name, "cover")
             self.ex.obligations[key] = ob
